@@ -50,6 +50,7 @@ type sigT struct {
 	pa       []int  // for kBlock parameters: their arity
 	retBlock bool   // calls probably return a block ...
 	retArity int    // ... of this arity
+	retKind  byte   // kInt / kBlock / kAny
 }
 
 func sigOfArity(n int) *sigT {
@@ -190,11 +191,16 @@ func (g *pgen) readInt(lx *lex) string {
 	if v := lx.visible("i"); len(v) > 0 && g.chance(85) {
 		return g.pick(v)
 	}
-	if v := lx.visible("i?"); len(v) > 0 && g.chance(90) {
+	if v := lx.visible("i"); len(v) > 0 {
 		return g.pick(v)
 	}
-	if v := lx.visible("i?bs"); len(v) > 0 && g.chance(50) {
+	if v := lx.visible("i?"); len(v) > 0 && g.chance(50) {
 		return g.pick(v)
+	}
+	if g.rare() {
+		if v := lx.visible("i?bs"); len(v) > 0 {
+			return g.pick(v)
+		}
 	}
 	return ""
 }
@@ -289,7 +295,7 @@ func (g *pgen) params(s *scope) {
 }
 
 func (s *scope) sig() *sigT {
-	return &sigT{pk: s.pk, pa: s.pa, retBlock: s.retBlock, retArity: s.retArity}
+	return &sigT{pk: s.pk, pa: s.pa, retBlock: s.retBlock, retArity: s.retArity, retKind: s.retKind}
 }
 
 func (g *pgen) newScope(lx *lex, isFunc bool, self string) *scope {
@@ -361,6 +367,12 @@ func (g *pgen) blockArg(lx *lex, arity int) expr {
 		return &eVar{g.pick(cand)}
 	}
 	if lx.depth >= 4 {
+		if len(cand) > 0 {
+			return &eVar{g.pick(cand)}
+		}
+		if v := lx.visible("b"); len(v) > 0 {
+			return &eVar{g.pick(v)}
+		}
 		return &eInt{g.smallInt()}
 	}
 	// literal with exactly `arity` number parameters
@@ -393,13 +405,13 @@ func (g *pgen) callOf(lx *lex, fn string) *eCall {
 		switch {
 		case sg.pk[k] == kBlock:
 			c.args = append(c.args, g.blockArg(lx, sg.pa[k]))
-		case g.chance(6):
+		case g.rare():
 			c.args = append(c.args, g.varOr(g.readAny(lx)))
 		default:
 			c.args = append(c.args, g.simpleOperand(lx))
 		}
 	}
-	if g.chance(3) {
+	if g.rare() {
 		// wrong number of arguments
 		if len(c.args) > 0 && g.chance(50) {
 			c.args = c.args[:len(c.args)-1]
@@ -411,12 +423,16 @@ func (g *pgen) callOf(lx *lex, fn string) *eCall {
 }
 
 func (g *pgen) final(lx *lex) expr {
+	lx.s.retKind = kAny
 	switch g.weighted([]int{30, 10, 15, 20, 25}) {
 	case 0:
+		lx.s.retKind = kInt
 		return g.varOr(g.readInt(lx))
 	case 1:
+		lx.s.retKind = kInt
 		return &eInt{g.smallInt()}
 	case 2:
+		lx.s.retKind = kInt
 		return g.arith(lx)
 	case 3:
 		// return a block (closures that outlive the call)
@@ -425,6 +441,7 @@ func (g *pgen) final(lx *lex) expr {
 			if sg := lx.sigOf(n); sg != nil {
 				lx.s.retBlock, lx.s.retArity = true, len(sg.pk)
 			}
+			lx.s.retKind = kBlock
 			return &eVar{n}
 		}
 		return g.varOr(g.readAny(lx))
@@ -485,7 +502,11 @@ func (g *pgen) callStmt(lx *lex, fn string) stmt {
 		if name == fn || lx.isOpen(name) {
 			return &sCall{c}
 		}
-		lx.set(name, kAny, nil)
+		k := byte(kAny)
+		if sg := lx.sigOf(fn); sg != nil && sg.retKind != 0 {
+			k = sg.retKind
+		}
+		lx.set(name, k, nil)
 		return &sAssign{name, c}
 	}
 	return &sCall{c}
